@@ -21,6 +21,11 @@ static int g_tc_emitted_errors = 0;
 /* "Error at line ..." reports count as errors as well */
 #define TC_ERRORF(...) do { g_tc_emitted_errors++; fprintf(stderr, __VA_ARGS__); } while (0)
 
+/* Set while the body of a shadow test is checked: it runs in the interpreter, which has
+ * every builtin of the registry */
+#include "builtins_registry.h"
+static bool g_checking_shadow_test = false;
+
 /* Type checking context */
 typedef struct {
     Environment *env;
@@ -1741,6 +1746,31 @@ static Type check_expression_impl(ASTNode *expr, Environment *env) {
                     }
                 }
                 
+                /* A shadow test runs in the interpreter, which also has the file system and
+                 * process builtins of the registry (file_write, file_exists, ...) */
+                const BuiltinEntry *interp_builtin = g_checking_shadow_test ? builtin_find(expr->as.call.name) : NULL;
+                if (interp_builtin) {
+                    if (expr->as.call.arg_count != interp_builtin->arity) {
+                        char arity_message[256];
+                        snprintf(arity_message, sizeof(arity_message),
+                                "Function `%s` expects %d argument(s), but got %d.",
+                                safe_format_string(expr->as.call.name), interp_builtin->arity, expr->as.call.arg_count);
+                        emit_context_error(
+                            "ARITY MISMATCH",
+                            expr->line,
+                            expr->column,
+                            (int)safe_strlen(expr->as.call.name),
+                            arity_message,
+                            "Add or remove arguments to match the function signature."
+                        );
+                        return TYPE_UNKNOWN;
+                    }
+                    for (int i = 0; i < expr->as.call.arg_count; i++) {
+                        check_expression(expr->as.call.args[i], env);
+                    }
+                    return interp_builtin->return_type;
+                }
+
                 char message[256];
                 snprintf(message, sizeof(message),
                         "I cannot find a function named `%s`.",
@@ -1831,6 +1861,7 @@ static Type check_expression_impl(ASTNode *expr, Environment *env) {
                         }
                         passed_sig.return_type = passed_func->return_type;
                         passed_sig.return_struct_name = passed_func->return_struct_type_name;
+                        passed_sig.return_fn_sig = passed_func->return_fn_sig;
                         
                         /* Compare signatures */
                         if (!function_signatures_equal(func->params[i].fn_sig, &passed_sig)) {
@@ -5819,6 +5850,22 @@ sdef.is_pub = item->as.struct_def.is_pub;            /* Propagate public visibil
                 }
             }
         }
+    }
+
+    /* Fourth pass: type check the bodies of the shadow tests (all functions are known now) */
+    for (int i = 0; i < program->as.program.count; i++) {
+        ASTNode *item = program->as.program.items[i];
+        if (item->type != AST_SHADOW || !item->as.shadow.body) {
+            continue;
+        }
+        int saved_symbol_count = env->symbol_count;
+        tc.current_function_return_type = TYPE_VOID;
+        tc.current_function_return_struct_name = NULL;
+        g_checking_shadow_test = true;
+        check_statement(&tc, item->as.shadow.body);
+        g_checking_shadow_test = false;
+        /* Shadow tests are not transpiled: their locals need not stay */
+        env->symbol_count = saved_symbol_count;
     }
 
     /* Post-pass: Update module FFI tracking based on loaded functions */
